@@ -77,6 +77,7 @@ func writeEvidence(prop, profile, tier string, seed uint64, rs []*RunResult, nvi
 	shadow := map[string]float64{}
 	c17 := map[string]float64{}
 	govedge := map[string]float64{}
+	canary := map[string]float64{}
 	for k, v := range counters {
 		switch {
 		case strings.HasPrefix(k, "fault/"):
@@ -93,6 +94,8 @@ func writeEvidence(prop, profile, tier string, seed uint64, rs []*RunResult, nvi
 			shadow[k] = v
 		case strings.HasPrefix(k, "c17/"):
 			c17[strings.TrimPrefix(k, "c17/")] = v
+		case strings.HasPrefix(k, "canary_"):
+			canary[k] = v
 		case strings.HasPrefix(k, "govedge/"):
 			govedge[strings.TrimPrefix(k, "govedge/")] = v
 		}
@@ -128,6 +131,7 @@ func writeEvidence(prop, profile, tier string, seed uint64, rs []*RunResult, nvi
 		"c17_attack_refusals_by_message_type": c17,
 		"c17_authority_message_types_enumerated_per_run": counters["c17_authority_message_types"] / float64(len(rs)),
 		"governance_edge_parameter_proposals": govedge,
+		"liveness_after_faults_stop":          canary,
 		"regression_replays":              regressionInfo,
 		"known_findings_seen":             nknown,
 		"real_components":                 []string{"all 17 elys modules (keepers, hooks, begin/end blockers, msg servers)", "elys ante handler chain with real signature verification", "cosmos-sdk baseapp, auth, bank, staking, gov(ccv democracy), authz, distribution, ccv consumer", "IAVL/rootmulti commit store"},
